@@ -61,7 +61,7 @@ ASSUMPTIONS = [
 
 PREFIXES = (REPO.rstrip('/') + '/ombott/', echo.__file__.rsplit('/', 1)[0] + '/')
 KINDS = ['echo_get', 'echo_post', 'echo_head', 'upload', 'raise_err', 'raise_resp', 'teapot', 'crash', 'gen',
-         'notfound', 'notallowed', 'json404', 'badchunk', 'chunked_ok', 'big', 'badpath', 'echo_put', 'hookcrash', 'badchunk_json', 'badjson', 'goodjson', 'badchunk_sizeline', 'busy_str', 'limit_num', 'upload_typed', 'upload_plain', 'badmultipart', 'boom_fixed_url', 'fixed_get', 'fixed_post', 'fixed_fail', 'panel', 'public', 'session', 'charset', 'dated', 'reqerr', 'reqerr_json']
+         'notfound', 'notallowed', 'json404', 'badchunk', 'chunked_ok', 'big', 'badpath', 'echo_put', 'hookcrash', 'badchunk_json', 'badjson', 'goodjson', 'badchunk_sizeline', 'busy_str', 'limit_num', 'upload_typed', 'upload_plain', 'badmultipart', 'boom_fixed_url', 'fixed_get', 'fixed_post', 'fixed_fail', 'panel', 'public', 'session', 'charset', 'dated', 'reqerr', 'reqerr_json', 'filtered']
 CHARSETS = ['latin1', 'utf-16-le', 'utf-8', 'cp1252', 'iso-8859-15']
 _MARK = re.compile(r'Z\d+z')
 
@@ -190,6 +190,8 @@ def environ_of(spec):
         path = '/busy/' + m
     elif kind == 'dated':
         path = '/dated/' + m
+    elif kind == 'filtered':
+        path = '/u/%s/p/%d/seg/%s/x/end' % (m, int(m[1:-1]) + 100, m)
     elif kind in ('reqerr', 'reqerr_json'):
         path = '/reqerr/' + m
         if kind == 'reqerr_json':
@@ -404,7 +406,7 @@ def sweep_units(tier, root):
     if tier == 'quick':
         # always: pairs in which both requests walk the same stream / container code at the same time
         fixed = [('chunked_ok', 'chunked_ok'), ('upload', 'upload_typed'), ('echo_post', 'fixed_post'), ('badjson', 'badchunk_json'),
-                 ('fixed_get', 'fixed_get'), ('session', 'session'), ('charset', 'charset'), ('dated', 'dated')]
+                 ('fixed_get', 'fixed_get'), ('session', 'session'), ('charset', 'charset'), ('dated', 'dated'), ('filtered', 'filtered')]
         pairs = fixed + rng.sample(pairs, 18)
     units = []
     for a, b in pairs:
